@@ -36,6 +36,9 @@ type World struct {
 	Known    map[string]*KnownFinding
 	Uninterp map[string]*UninterpDef
 	OnlyProp string
+	recLocals   map[string][]localDecl
+	renameCache map[*ssa.Function]map[string]string
+	Covers   bool // generate clause-cover queries (thorough tier)
 	debug    map[*ssa.Function]map[string][]*ssa.DebugRef
 }
 
@@ -44,6 +47,7 @@ func LoadWorld(repo, root string) (*World, error) {
 		Layouts: map[string]*LayoutType{}, Uninterp: map[string]*UninterpDef{}, loops: map[*ssa.Function]*loopInfo{}, debug: map[*ssa.Function]map[string][]*ssa.DebugRef{}}
 	cfg := &packages.Config{Mode: packages.LoadAllSyntax, Dir: repo, BuildFlags: []string{"-tags=verif"}, Tests: false,
 		Env: append(os.Environ(), "GOFLAGS=-mod=mod", "GOPROXY=off", "GOSUMDB=off", "GOTOOLCHAIN=local")}
+	w.loadRecordedLocals(root)
 	pkgs, err := packages.Load(cfg, "./...")
 	if err != nil {
 		return nil, err
